@@ -2,11 +2,13 @@
 # usage: tools/seedcheck.sh <dir with seed_patch.diff/patch.diff + demo> "<props>" [budget]
 # confirms a seeded change (demo fails with it, passes without) and runs the
 # listed checks against a scratch worktree of /repo with the change applied.
+# SEED_BASE=<commit> uses that commit instead of HEAD (a seed written for an
+# older tree whose trigger a later repair made unreachable).
 SRC=$1; PROPS=$2; BUDGET=${3:-25}
 PATCH=$SRC/seed_patch.diff; [ -f "$PATCH" ] || PATCH=$SRC/patch.diff
 DEMO=$SRC/seed_demo.py; [ -f "$DEMO" ] || DEMO=$(ls $SRC/demo* | head -1)
 WT=$(mktemp -d /tmp/seedchk.XXXXXX); rmdir $WT
-git -C /repo worktree add -q --detach $WT HEAD || exit 3
+git -C /repo worktree add -q --detach $WT ${SEED_BASE:-HEAD} || exit 3
 cp $DEMO $WT/seed_demo.py
 cd $WT
 echo "== demo on the unchanged tree"; PYTHONPATH=$WT timeout 300 /venv/bin/python seed_demo.py > /tmp/seedchk_clean.log 2>&1; echo "exit $?"; tail -2 /tmp/seedchk_clean.log
